@@ -11,5 +11,6 @@ var verifHarnesses = map[string]func(){
 	"VerifH_C09_L2_crash":    VerifH_C09_L2_crash,
 	"VerifH_C08_blocked":   VerifH_C08_blocked,
 	"VerifH_C12_deadlines": VerifH_C12_deadlines,
+	"VerifH_C12_twoTasks":  VerifH_C12_twoTasks,
 	"VerifH_C13_finalize":  VerifH_C13_finalize,
 }
